@@ -136,10 +136,11 @@ func (c *Classifier) Classify(t *html.Node) (Type, Reason) {
 		return c.logAndReturn(Data, CaptionTheadTfootColgroupColTh)
 	}
 
-	// Extract all <td> elements from direct descendants, for easier/faster multiple access.
+	// Extract all cells from direct descendants, for easier/faster multiple access. A <th>
+	// that gets here (it has no text, e.g. only an image) is a cell like a <td>.
 	directTDs := []*html.Node{}
 	for _, element := range directDescendants {
-		if dom.TagName(element) == "td" {
+		if tagName := dom.TagName(element); tagName == "td" || tagName == "th" {
 			directTDs = append(directTDs, element)
 		}
 	}
